@@ -3,9 +3,9 @@
 A condition term is built from atoms with not / and / or. Comparisons are canonicalised to the
 positive operators {==, <, <=, is, in} plus a polarity (a > b is b < a; a != b is not (a == b)), so
 every spelling of one test is one atom. Equivalence and implication of two conditions are decided by
-enumerating the assignments of their (few) atoms; atoms are treated as independent propositions,
-which is sound for *implication found true* only when no arithmetic relation between atoms is needed
-(the rules below only compare conditions built from the same handful of tests).
+enumerating the assignments of their (few) atoms; atoms are independent propositions except that
+assignments which contradict the order of the reals are dropped when several atoms compare one term with
+numeric constants (`n == 0 or n == 1` entails `n <= 1`).
 """
 import itertools
 
@@ -91,12 +91,56 @@ def conj(lits):
     return ("and", tuple(lits)) if len(lits) != 1 else lits[0]
 
 
+def _num(c):
+    return isinstance(c, tuple) and len(c) == 2 and c[0] == "const" and isinstance(c[1], (int, float)) and \
+        not isinstance(c[1], bool) and c[1] == c[1]
+
+
+def _consistent(env):
+    """Can the atoms that compare one term with numeric constants take these truth values together?
+    (order reasoning over the reals: `n == 0` true and `n <= 1` false is impossible)"""
+    groups = {}
+    for atom, val in env.items():
+        if isinstance(atom, tuple) and len(atom) == 4 and atom[0] == "cmp" and atom[1] in ("==", "<", "<=") and _num(atom[3]) \
+                and not _num(atom[2]):
+            groups.setdefault(atom[2], []).append((atom[1], atom[3][1], val))
+    for cons in groups.values():
+        if len(cons) < 2:
+            continue
+        lo, lo_strict, hi, hi_strict = float("-inf"), False, float("inf"), False
+        eqs, nes = set(), set()
+        for op, c, val in cons:
+            if op == "==":
+                (eqs if val else nes).add(c)
+                continue
+            if (op == "<" and val) or (op == "<=" and val):             # t < c  /  t <= c
+                strict = op == "<"
+                if c < hi or (c == hi and strict):
+                    hi, hi_strict = c, strict
+            else:                                                        # t >= c  /  t > c
+                strict = op == "<="
+                if c > lo or (c == lo and strict):
+                    lo, lo_strict = c, strict
+        if len(eqs) > 1:
+            return False
+        if eqs:
+            v = next(iter(eqs))
+            if v in nes or v < lo or v > hi or (v == lo and lo_strict) or (v == hi and hi_strict):
+                return False
+            continue
+        if lo > hi or (lo == hi and (lo_strict or hi_strict or lo in nes)):
+            return False
+    return True
+
+
 def _table(fa, fb):
     names = atoms(fa, atoms(fb, []))
     if len(names) > 12:
         raise ValueError("too many atoms")
     for vals in itertools.product((False, True), repeat=len(names)):
-        yield dict(zip(names, vals))
+        env = dict(zip(names, vals))
+        if _consistent(env):
+            yield env
 
 
 def equivalent(a, b):
